@@ -55,96 +55,3 @@ fn leaf_read_u32_functions() {
     let idx: usize = kani::any();
     let _ = read_u32(&raw[..len], idx);
 }
-
-// ------------------------------------------------------------------ numbers through documents (complete in the numbers)
-fn any_number() -> Number {
-    let k: u8 = kani::any();
-    kani::assume(k < 3);
-    match k {
-        0 => Number::Int64(kani::any()),
-        1 => Number::UInt64(kani::any()),
-        _ => Number::Float64(kani::any()),
-    }
-}
-
-/// scalar document holding `n`, built with the real compact_encode (proved exact by num_codec_roundtrip)
-fn num_doc(n: &Number) -> ([u8; 17], usize) {
-    let mut d = [0u8; 17];
-    d[0] = 0x20;
-    let w = {
-        let mut cur: &mut [u8] = &mut d[8..];
-        let before = cur.len();
-        n.compact_encode(&mut cur).unwrap();
-        before - cur.len()
-    };
-    d[4] = 0x20; // NUMBER_TAG | len
-    d[7] = w as u8;
-    (d, 8 + w)
-}
-
-fn small_or_float(n: &Number) -> bool {
-    match n {
-        Number::Int64(v) => *v >= -(1i64 << 53) && *v <= (1i64 << 53),
-        Number::UInt64(v) => *v <= (1u64 << 53),
-        Number::Float64(_) => true,
-    }
-}
-
-fn key_order_agrees(a: &Number, b: &Number) -> bool {
-    let (da, la) = num_doc(a);
-    let (db, lb) = num_doc(b);
-    let mut ka = Vec::new();
-    let mut kb = Vec::new();
-    convert_to_comparable(&da[..la], &mut ka);
-    convert_to_comparable(&db[..lb], &mut kb);
-    let c = compare(&da[..la], &db[..lb]);
-    c.is_ok() && ka.as_slice().cmp(kb.as_slice()) == c.unwrap()
-}
-
-/// C14 on scalar numbers whose integers are exactly representable as f64 (|v| <= 2^53): key order == compare order
-#[kani::proof]
-#[kani::unwind(12)]
-#[kani::solver(cvc5)]
-#[kani::stub(crate::parser::parse_value, no_text)]
-fn keynum_order_exact_range() {
-    let a = any_number();
-    let b = any_number();
-    kani::assume(small_or_float(&a) && small_or_float(&b));
-    assert!(key_order_agrees(&a, &b));
-}
-
-/// C14 on ALL scalar numbers (expected to fail on the current tree: finding F13, integers beyond 2^53)
-#[kani::proof]
-#[kani::unwind(12)]
-#[kani::solver(cvc5)]
-#[kani::stub(crate::parser::parse_value, no_text)]
-fn keynum_order_full() {
-    let a = any_number();
-    let b = any_number();
-    assert!(key_order_agrees(&a, &b));
-}
-
-/// C12: containment of scalars / in one-element arrays uses the equality that compare reports
-#[kani::proof]
-#[kani::unwind(12)]
-#[kani::solver(cvc5)]
-#[kani::stub(crate::parser::parse_value, no_text)]
-fn containsnum_scalar_eq() {
-    let a = any_number();
-    let b = any_number();
-    let (da, la) = num_doc(&a);
-    let (db, lb) = num_doc(&b);
-    let eq = compare(&da[..la], &db[..lb]) == Ok(std::cmp::Ordering::Equal);
-    assert!(eq == (a == b));
-    // scalar contains scalar
-    assert!(contains(&da[..la], &db[..lb]) == eq);
-    // one-element array [a] contains scalar b, and contains [b]
-    let mut arr_a = [0u8; 17];
-    arr_a[0] = 0x80; arr_a[3] = 1; arr_a[4] = 0x20; arr_a[7] = (la - 8) as u8;
-    let mut i = 0; while i < 9 { if 8 + i < la { arr_a[8 + i] = da[8 + i]; } i += 1; }
-    let mut arr_b = [0u8; 17];
-    arr_b[0] = 0x80; arr_b[3] = 1; arr_b[4] = 0x20; arr_b[7] = (lb - 8) as u8;
-    i = 0; while i < 9 { if 8 + i < lb { arr_b[8 + i] = db[8 + i]; } i += 1; }
-    assert!(contains(&arr_a[..la], &db[..lb]) == eq);
-    assert!(contains(&arr_a[..la], &arr_b[..lb]) == eq);
-}
